@@ -60,6 +60,35 @@ def block_knob():
     return None
 
 
+def natural_block():
+    """the implementation's own read-ahead block size (value behind block_knob()), or None"""
+    import inspect
+    import pydiffx.reader as R
+    knob = block_knob()
+    if knob is None:
+        return None
+    kind, name = knob
+    try:
+        if kind == 'param':
+            return inspect.signature(R.DiffXReader._read_until).parameters[name].default
+        if kind == 'attr':
+            return getattr(R.DiffXReader, name)
+        return vars(R)[name]
+    except Exception:
+        return None
+
+
+def block_lengths(static, quick):
+    """header lengths around multiples of the read-ahead block: the static list (block 96 of the pinned source) plus
+    the neighbourhood of the current source's block size, if it can be seen"""
+    k = natural_block()
+    out = set(static)
+    if type(k) is int and 2 <= k <= 4096:
+        out |= {k - 2, k - 1, k, k + 1, 2 * k - 1, 2 * k} if quick else \
+            {k - 3, k - 2, k - 1, k, k + 1, k + 2, 2 * k - 2, 2 * k - 1, 2 * k, 2 * k + 1, 3 * k - 1, 3 * k, 4 * k - 1, 4 * k}
+    return sorted(x for x in out if x > 0)
+
+
 class forced_block(object):
     """context manager: DiffXReader instance `rd` reads ahead in blocks of k (k may be symbolic)"""
 
